@@ -1536,7 +1536,20 @@ def alpha_rename(stmt, rnd, mode="rename", pool=()):
                 if st.target is not None:
                     scope.add(st.target.name.lower())
                 local = {k.lower() for k in used if not k.startswith("tb_k")}  # other aliases / CTE names anywhere in the statement
-                mapping[rel.alias] = fresh(scope | local)
+                # now and then the new name is an alias that lives in ANOTHER scope of the statement (inner names shadow outer ones; the
+                # generator writes no correlated references, so the meaning is unchanged); never a CTE name, which is visible everywhere
+                cte_names = {n.lower() for w in withs for n, _ in w.ctes} | {r2.name.lower() for _, r2 in rels if r2.kind == "cte"}
+                elsewhere = sorted({r2.alias for s2, r2 in rels if s2 is not sel and getattr(r2, "alias", None) and r2.kind != "cte"
+                                    and r2.alias.lower() not in scope and r2.alias.lower() not in cte_names})
+                taken_here = {str(mapping[r2.alias]).lower() for r2 in (sel.rels() if sel is not None else []) if getattr(r2, "alias", None) in mapping}
+                # the name taken over is the FINAL name of that other-scope alias (pinned to itself if it has not been renamed yet)
+                elsewhere = [x for x in elsewhere if str(mapping.get(x, x)).lower() not in taken_here and str(mapping.get(x, x)).lower() not in scope]
+                if elsewhere and rnd.random() < 0.4:
+                    x = rnd.choice(elsewhere)
+                    mapping.setdefault(x, x)
+                    mapping[rel.alias] = mapping[x]
+                else:
+                    mapping[rel.alias] = fresh(scope | local)
         for w in withs:
             for n, _ in w.ctes:
                 if n not in mapping:
